@@ -998,6 +998,25 @@ func vrRunOn(x *vrRun, out *vrPathOut) {
 		if nt == nil {
 			// nothing to deliver: is a retry pending?
 			if err := x.settle(false, 150*time.Millisecond); err != nil || x.gate == nil {
+				// Quiescent: the rescan is running, sits in a select,
+				// every notification has been handed to it, no chain
+				// event is held back and no retry is pending. The
+				// announced chain (genesis .. filter-header tip) goes
+				// into the trace so that Props can tell whether a
+				// relevant transaction will never be delivered.
+				x.c.mu.Lock()
+				held := x.c.held != nil
+				n := x.c.fh + 1
+				if n > len(x.c.chain) {
+					n = len(x.c.chain)
+				}
+				ch := append([]int{}, x.c.chain[:n]...)
+				x.c.mu.Unlock()
+				if x.gate == nil && !held && x.st == 0 && sub != nil {
+					out.Steps = append(out.Steps, vrStepOut{
+						Act: vrAct{Op: "Idle", Res: "ok", B: -1, Add: ch},
+						Obs: x.obs(), Note: note})
+				}
 				return
 			}
 			out.Steps = append(out.Steps, vrStepOut{Act: retry, Obs: x.obs(), Note: note})
